@@ -1739,6 +1739,11 @@ def report(ctx, audit, t0):
                 break
             small = shrink(ctx, f) if len(f["case"]) > 3 else f["case"]
             found = ctx.pid in SPEC_IS_MODEL and not mons and not all(x[0] == "kind~" for x in f["detail"])
+            if ctx.pid == "C09" and not mons and (any(x[0] == "size" for x in f["detail"]) or
+                                                     (any(x[0] in ("outcome", "kind") for x in f["detail"]) and
+                                                      "kind=ExceedsMaxSize" in (f.get("impl") or "") + (f.get("model") or ""))):
+                # step_refused_iff / set_seq_refused_iff / build_refusal pin when a call is refused for size and what size() is
+                found = True
             # a disagreement for which a monitor already produced a failing input is reported under that one
             path = os.path.join("evidence", "replays", "%s-%d.json" % (ctx.pid, n))
             json.dump({"property": ctx.pid, "kind": "correspondence", "key_type": f["kt"], "commands": small, "original_commands": f["case"],
